@@ -88,26 +88,32 @@ P = {
         "n_quick": 240, "n_thorough": 4000, "findings": {}, "shard": 200,
     }],
     "extra_coverage": _stats,
-    "rule": "service configuration (six status overrides incl. 0, valid 3xx-9xx, rare 1xx/2xx and invalid codes; accepted code unset / 2xx / "
-            "non-2xx / invalid) x lookup (matching rule, with or without an always-succeeding default rule behind it | default rule | no "
-            "rule) x rule (1-4 authenticators, rarely 0; 0-6 authorizers/contextualizers; 0-3 finalizers; 0-4 error handlers; forward_to "
-            "present or not; allow_encoded_slashes off or not) x outcome vector (every step: success | error value = random tree of depth "
-            "<= 4 over the 8 heimdall sentinels, other sentinels, RedirectError, EvalError, foreign leaves, %w / Join / ErrorChain | panic "
-            "with error or string value; fallback flag; continue-on-error; every `if`: absent | true | false (stub program or really "
-            "compiled CEL) | program error | panic; error handlers: the three REAL mechanisms incl. redirect render failure and request-dependent redirect targets that render "
-            "nothing / blanks / a URL, stubs that "
-            "fail / panic / return nil silently) x request (with or without %2F); 45% of the rules are 'calm' (steps mostly succeed) so "
-            "that complete pipelines are frequent; all three entry points per case.  non-trivial = a rule applied and at least one of its "
-            "steps failed, was skipped by a false condition, had a condition that could not be evaluated, or panicked; distinct by hash of "
-            "the generated input.  Second stream 'assembled' (no stubs): generated heimdall configuration (real anonymous / unauthorized / "
-            "basic_auth authenticators with and without allow_fallback_on_error, allow / deny / cel authorizers, generic contextualizers "
-            "against a local endpoint answering 200 or 500 with and without continue_pipeline_on_error, noop / header finalizers, "
-            "default / redirect(302, 301) error handlers, optional default rule, respond overrides) + generated rule sets with real CEL "
-            "`if` expressions (true, false, request dependent, run-time evaluation error) and stage-wise inheritance from the default "
-            "rule, loaded through the real configuration loader, mechanism catalogue, rule factory, file_system provider, rule-set "
-            "processor and repository (fx modules of cmd/serve minus those that only bind sockets); requests with no / good / bad "
-            "credentials, with and without %2F; the case is rendered in the model's vocabulary (what each mechanism does on that "
-            "request) and checked by the same evaluator",
+    "rule": (
+        "Stream 'pipeline' (stubs only at the subjectCreator/subjectHandler interfaces): GROUPS of 1-3 different requests through ONE "
+        "rule instance, ONE executor and ONE stack per entry point.  Group = service configuration (six status overrides incl. 0, "
+        "valid 3xx-9xx, rarely 1xx/2xx or invalid; accepted code unset / 2xx / rarely non-2xx or invalid) x lookup (matching rule, "
+        "with or without an always-succeeding default rule behind it | default rule | no rule) x rule structure (1-4 authenticators, "
+        "rarely 0; 0-6 authorizers/contextualizers; 0-3 finalizers; 0-4 error handlers: the three REAL mechanisms incl. redirect render "
+        "failure and request-dependent targets rendering nothing/blanks/a URL, stubs that fail/panic, rarely a silent stub; fallback "
+        "and continue-on-error flags; forward_to or not; allow_encoded_slashes off or not; decision/proxy served on a recorder or "
+        "(25%) over a real loopback connection).  Per request of the group: method GET/POST/HEAD/OPTIONS(+pre-flight headers)/PUT/"
+        "DELETE, path (rule path, sub path, %2F; for non-matching lookups also /, /.well-known/health, /favicon.ico, /metrics ...), "
+        "what the upstream does (200 | 204/302/404/500 | takes the request and drops the connection), and an OUTCOME VECTOR: every "
+        "step succeeds | returns an error value (random tree of depth <= 4 over heimdall sentinels, other sentinels, RedirectError, "
+        "EvalError, foreign leaves, standard-library errors such as context.Canceled / DeadlineExceeded / io.EOF / net timeouts, "
+        "%w / Join / ErrorChain) | panics (error or string value); every `if` is absent | a stub program (true/false/error/panic) | "
+        "a really compiled CEL expression reading a request header, the method or Subject.ID, whose value differs between the "
+        "requests of the group.  45% of the vectors are 'calm' (steps mostly succeed).  Stream 'concurrent' (race detector on): "
+        "groups of 3-6 requests, first sequentially, then 12 rounds of all requests x 3 entry points concurrently through the same "
+        "instances; the answers must be the sequential ones and the upstream hit total must add up.  Stream 'assembled' (no stubs): "
+        "generated heimdall configuration (anonymous / unauthorized / basic_auth with and without allow_fallback_on_error incl. "
+        "step-level `config` overrides of that flag, allow / deny / cel / remote authorizers, generic contextualizers against a local "
+        "endpoint (200/500) with and without continue_pipeline_on_error incl. step-level overrides, noop / header / failing header "
+        "finalizers, default / redirect (302, 301, request-dependent target) / www_authenticate handlers, optional default rule, "
+        "respond overrides) + generated rule sets with real CEL `if` expressions and stage-wise inheritance, loaded through the real "
+        "configuration loader, mechanism catalogue, rule factory, file_system provider, rule-set processor and repository; requests "
+        "with no / good / bad credentials, with and without %2F.  non-trivial = a rule applied and at least one of its steps failed, "
+        "was skipped by a false condition, had a condition that could not be evaluated, or panicked; distinct by hash of the input"),
     "anchors": ["internal/rules/rule_impl.go", "internal/rules/rule_executor_impl.go",
                 "internal/rules/composite_subject_creator.go", "internal/rules/composite_subject_handler.go",
                 "internal/rules/composite_error_handler.go", "internal/rules/conditional_subject_handler.go",
@@ -125,48 +131,56 @@ P = {
                 "internal/handler/middleware/http/recovery/handler.go",
                 "internal/handler/middleware/http/errorhandler/error_handler.go",
                 "internal/handler/middleware/grpc/errorhandler/interceptor.go"],
-    "trusted": ["mechanisms are programmable stubs at the subjectCreator/subjectHandler interfaces (what a mechanism computes is data: "
-                "success, an error value, a panic); the composites, conditional wrappers, celExecutionCondition + cellib.CompiledExpression, "
-                "the three error handler mechanisms, repository, rule executor, the three service stacks and both error translators are the "
-                "real code",
-                "CEL evaluation is data: the cel.Program inside the real CompiledExpression is a stub returning the case's value / error / "
-                "panic (40% of the true/false conditions are really compiled CEL expressions instead)",
-                "rule matching is not modelled (C02/C03): the lookup situation is set up through the real repository with trivially "
-                "matching routes",
-                "the upstream is a reachable httptest server answering 200; the reverse proxy transport is not modelled",
-                "the error translators are the C12 model (C12's own stream ties them to the code); statuses do not depend on content "
-                "negotiation, so the C01 model runs them with a fixed oracle",
-                "not distinguished by the stream (unreachable in heimdall): errors.Is vs identity for the package-private "
-                "errErrorHandlerNotApplicable, a CEL program error wrapping cellib.EvalError, a non-bool CEL result",
-                "assembled stream: the table 'what each real mechanism returns on the case's request' (error kinds of unauthorized, "
-                "basic_auth, deny, cel, generic contextualizer) and the stage-wise inheritance from the default rule (C14) are part of "
-                "the driver; the fx application is composed of heimdall's own modules without management/metrics/profiling and "
-                "without the service lifecycle (no sockets): the services are built by the same newService constructors in-process",
-                "shared driver helpers harness/stacks (request construction, in-memory gRPC listener, counting upstream, error-tree builder)"],
-    "level_text": "Proof (kernel-checked, no axioms) over rules with step lists of any length and every outcome vector that, on all three "
-                  "entry points, a positive answer (accepted status / forwarded to the upstream / Envoy OK) is given only if a rule or the "
-                  "default rule applied and its pipeline completed (an authenticator produced a subject under the fallback rule, every step "
-                  "not marked continue-on-error was skipped by a false condition or returned without error); that otherwise - no rule, a "
-                  "mechanism error, a condition that cannot be evaluated, any error pipeline (empty, conditional, non-applicable, failing, "
-                  "default/redirect/www_authenticate), a panic anywhere - the answer is a non-1xx/2xx status or a non-OK gRPC result and the "
-                  "upstream is not contacted; and conversely that a completed pipeline is answered positively.  The model (rule executor, "
-                  "rule, composites, conditions, error pipeline, recorded pipeline error, the three Finalize, error translation, recovery) is "
-                  "tied to the code by running the real composites/conditions/error handlers/repository/executor inside the three real "
-                  "service stacks with a counting upstream on ~1200 (quick) / 30000 (thorough) generated rules x outcome vectors per run, and "
-                  "by a second stream without stubs (real mechanisms, configuration loader, rule factory, provider, repository; 240 / 4000 "
-                  "requests) so that the stubs cannot hide glue.",
-    "level_note": "Trusted: Coq kernel/vm_compute; the correspondence harness; mechanisms and CEL evaluation are data of the case. Hypotheses "
-                  "are explicit and each is shown necessary by a theorem: no status override and no redirect code (error values, redirect "
-                  "handler) in 100..299 and, for telling a positive decision answer from an error response, an accepted code in 100..299 "
-                  "(C01_success_redirect_is_positive; C12_success_override_possible); the rule has an authenticator (guaranteed by the rule "
-                  "factory, C14_accepted_only_if_wellformed; C01_no_authenticator_is_positive); every error handler is one of heimdall's "
-                  "three mechanisms or fails or panics (C01_silent_handler_would_rescue: the veto rests on every mechanism recording a "
-                  "pipeline error before returning nil).  The panic theorem is stated on the model's rule result (RPanic), not on an "
-                  "independent 'a panic is reached' predicate.  No open finding.",
-    "assumptions": ["status overrides, redirect codes outside 100..299; accepted code inside (only needed to tell positive from negative "
-                    "answers of the decision service)",
-                    "rules come from the rule factory: at least one authenticator, error handlers are default/redirect/www_authenticate",
-                    "the upstream is reachable and answers; an authenticator that returns (nil, nil) (nil subject without error) is outside "
-                    "the model (no heimdall authenticator does)",
-                    "a 1xx accepted/override code is observed on httptest.ResponseRecorder, not on a real connection"],
+    "trusted": [
+        "what a mechanism computes is data: stream 'pipeline' uses programmable stubs at the subjectCreator/subjectHandler interfaces "
+        "and renders what the stubs were told to do; stream 'assembled' uses real mechanisms and renders a hand-written table of what "
+        "each of them does on the case's request (asmCoqAuthn/asmCoqStep/asmCoqEH) plus the stage-wise inheritance (C14). Both "
+        "renderings are trusted; a wrong table shows as a correspondence failure on the unchanged tree (none: exact drift 0)",
+        "CEL evaluation is data: a stub cel.Program inside the real CompiledExpression, or a really compiled expression whose value "
+        "on the request is computed by the driver (header set by the driver, method, fixed Subject.ID)",
+        "rule matching is not modelled (C02/C03): the lookup situation is set up through the real repository with trivial routes",
+        "the upstream is a local test server (answers with a status or drops the connection after taking the request); slow "
+        "upstreams, 100-continue, upgrades are not generated",
+        "the error translators are the C12 model; correspondence for C01 is on the projection (success status or not / accepted "
+        "status / upstream reached or not); exact agreement of status, gRPC code and hit count is reported as a statistic "
+        "(exact_status_drift_cases) and never fatal",
+        "HTTP answers are read from httptest.ResponseRecorder or (25% of the groups) from a real loopback connection; TLS, HTTP/2, "
+        "deadlines are not exercised",
+        "not distinguished (unreachable in heimdall): errors.Is vs identity for the package-private errErrorHandlerNotApplicable, a "
+        "CEL program error wrapping cellib.EvalError, a non-bool CEL result, an authenticator returning (nil, nil)",
+        "shared driver helpers harness/stacks (request construction, in-memory gRPC listener, socket server, modal counting upstream, "
+        "error-tree builder)"],
+    "level_text": (
+        "Proof (kernel-checked, no axioms) over rules with step lists of any length, every outcome vector and ARBITRARY error "
+        "handlers that, on all three entry points, a positive answer (accepted status / forwarded to the upstream / Envoy OK) is "
+        "given only if a rule or the default rule applied and its pipeline completed (an authenticator produced a subject, every "
+        "step not marked continue-on-error was skipped by a false condition or returned without error); that otherwise - no rule, a "
+        "mechanism error, a condition that cannot be evaluated, any error pipeline whose handlers record before they report success "
+        "(shown for heimdall's three), a reached panic (stated on the rule alone, incl. continue-on-error steps) - the answer is a "
+        "non-1xx/2xx status or a non-OK gRPC result and the upstream is not contacted; that there is no third kind of answer; and "
+        "conversely (liveness) that a succeeded pipeline is answered positively.  The property predicate of the check is built from "
+        "this specification and evaluated on the implementation's observations; the model is tied to the code on the projection the "
+        "statement talks about by three streams per run: ~1200/30000 requests in groups through shared real composites / conditions "
+        "/ error handlers / repository / executor / service stacks with a modal counting upstream, a concurrent pass under the race "
+        "detector, and 240/4000 requests through a fully real configuration (no stubs)."),
+    "level_note": (
+        "9 property theorems + 6 witnesses (computations on concrete rules showing each hypothesis necessary, non-vacuity, and how "
+        "the statement is read for continue-on-error steps).  Hypotheses: no status override in 100..299; for the decision service "
+        "the accepted code in 100..299; the rule has an authenticator (C14); error VALUES produced by mechanisms/conditions/panics "
+        "carry no RedirectError with a 1xx/2xx code (heimdall's redirect handler cannot: C01_loader_redirect_never_success); every "
+        "error handler records a pipeline error before returning nil (semantic condition on arbitrary handlers; holds for the three "
+        "mechanisms per C12's model of them).  Reading of the statement: 'an authenticator produced a subject' does not ask whether "
+        "falling back was legitimate (C04); continue-on-error steps are exempt as a whole, including evaluation errors of their "
+        "conditions, which the code swallows.  Trusted: Coq kernel/vm_compute; the harness; what mechanisms and CEL compute is data. "
+        "On ~10% of the generated cases the property predicate is vacuous because a hypothesis fails for the generated configuration "
+        "(reported per run as property_vacuous_share).  Not covered: CORS or other middleware shortcuts when configured (assumption: "
+        "no CORS), TLS/HTTP2, slow upstreams, more than ~6 requests per rule instance.  No shrinking of failing cases (the runner "
+        "writes the first raw cases).  No open finding."),
+    "assumptions": [
+        "no CORS is configured for the proxy service (with serve.proxy.cors set, rs/cors answers an OPTIONS pre-flight 204 itself "
+        "without any rule being executed - no upstream contact, but a 2xx without a pipeline); trusted_proxies unset",
+        "status overrides outside 100..299; accepted code of the decision service inside",
+        "rules come from the rule factory: at least one authenticator; error handlers record before returning nil",
+        "error values carry no RedirectError with a 1xx/2xx code",
+        "1xx codes are observed on httptest.ResponseRecorder / a plain HTTP/1.1 client"],
 }
